@@ -35,7 +35,7 @@ MANIFEST = dict(
          "GETOPT_MISSING_ARG). The label sequence, option arguments and final optind are compared with a reference parser written from getopt.h. Every "
          "case parses two vectors separated by optreset (optionally abandoning the first loop), and a fork-per-case sub parses in a process that never "
          "called getopt, so reset == fresh. Thorough additionally sweeps ALL vectors of length <= 4 over 12-token alphabets for every table. Exploration is "
-         "the right level: argv space is unbounded, the oracle is exact, tables are configuration samples.",
+         "the right level: argv space is unbounded, the oracle is exact, tables are configuration samples. Option bytes >= 0x80, a label on the GETOPT_SWITCH line and the empty vector (argc == 0) are part of the domain.",
     note="Trusted: clang 14 + ASan/UBSan, rapidcheck, the reference parser in props/C18/core.cpp (self-tested on the header's and tests/getopt's examples). "
          "Tables are a finite sample of configurations (16); table registration errors (documented aborts) are not exercised. Undocumented observables "
          "(optarg at no-argument/default labels, warning text) are not asserted.",
